@@ -36,7 +36,7 @@ var opKinds = []string{
 	"timeout", "timeout", "timeout",
 	"fair", "fair",
 	"byzvote", "byzvote", "byzprop", "split",
-	"dup", "drop", "drop", "crashrestart", "crash", "restart", "sync",
+	"dup", "drop", "drop", "crashrestart", "crash", "restart", "sync", "stalepolka", "lateproposal",
 }
 
 func genCase(t *rapid.T) Case {
@@ -185,6 +185,12 @@ func runCase(c Case, x *h.Ctx) {
 	x.Labelf("validators:%d", nn)
 	x.Labelf("byz:%d", len(c.Byz))
 	x.Labelf("maxround:%d", min64(st.MaxRound, 4))
+	if st.StalePolkas > 0 {
+		x.Label("stale-polka-attack-in-prefix")
+	}
+	if st.LateProposals > 0 {
+		x.Label("late-proposal-attack-in-prefix")
+	}
 	if st.Crashes > 0 {
 		x.Label("crash")
 	}
